@@ -172,14 +172,35 @@ Section Tree.
   Qed.
 
   Lemma den_prim var x : enc_shape (v_format var) x ->
-    den (g_prim c u var x) = [e_prim c u var x].
+    (v_nillable var = false \/ exists p, x = VP p) ->
+    den (g_prim c u var x) = [e_prim c u var x]
+    /\ attrs_present (item_of c (g_prim c u var x)) = true.
   Proof.
-    intros H. unfold den, g_prim, e_prim. cbn [item_of map].
-    rewrite (denote_node _ [] _ [] eq_refl).
-    change (flat_map denote [IData (of_wval c (enc (v_format var) x))])
-      with (den (BData (enc (v_format var) x)) ++ []).
-    rewrite (den_data _ x H), app_nil_r.
-    unfold nil_filter. destruct (existsb kid_content _); reflexivity.
+    intros H Hnl.
+    assert (Hcase : nil_attr_g var x = []
+                    \/ (nil_attr_g var x = [(XSI_NIL, WP (PStr EventGen.TRUE_STR))] /\ exists p, x = VP p)).
+    { unfold nil_attr_g. destruct Hnl as [Hn|Hp]; [left; rewrite Hn; reflexivity|].
+      destruct (v_nillable var && negb (py_truthy x)); [right; split; [reflexivity|exact Hp]|left; reflexivity]. }
+    unfold den, g_prim, e_prim. cbn [item_of map].
+    destruct Hcase as [E|[E [p Ex]]]; rewrite E; cbn [map].
+    - split.
+      + rewrite (denote_node _ [] _ [] eq_refl).
+        change (flat_map denote [IData (of_wval c (enc (v_format var) x))])
+          with (den (BData (enc (v_format var) x)) ++ []).
+        rewrite (den_data _ x H), app_nil_r.
+        unfold nil_filter. destruct (existsb kid_content _); reflexivity.
+      + reflexivity.
+    - subst x. split; [|reflexivity].
+      rewrite (denote_node _ _ _ [(Bind.split_qname XSI_NIL, [AText EventGen.TRUE_STR])]).
+      2:{ reflexivity. }
+      change (flat_map denote [IData (of_wval c (enc (v_format var) (VP p)))])
+        with (den (BData (enc (v_format var) (VP p))) ++ []).
+      rewrite (den_data _ (VP p) H), app_nil_r.
+      assert (Hc : existsb kid_content [IData (of_wval c (enc (v_format var) (VP p)))] = true).
+      { cbn [existsb kid_content]. rewrite (of_wval_enc _ _ H). destruct p; reflexivity. }
+      rewrite Hc. unfold nil_filter. cbn [filter fst]. rewrite split_xsi_nil.
+      assert (Eq : qname_eqb q_xsi_nil q_xsi_nil = true) by (vm_compute; reflexivity).
+      rewrite Eq. reflexivity.
   Qed.
 
   (* ---------------------------------------------------------------- attributes of one field *)
@@ -320,10 +341,10 @@ Section Tree.
              /\ forallb (fun k => attrs_present (item_of c k)) (g_items c u (gobj n) var x) = true).
         { intros [E1 E2]. unfold g_field, e_field. destruct x eqn:Ex; try (split; reflexivity);
             rewrite <- Ex in *; apply (den_wrap var _ _ E1 E2). }
-        assert (Hpr : forall y, enc_shape (v_format var) y ->
+        assert (Hpr : forall y, enc_shape (v_format var) y -> (v_nillable var = false \/ exists p, y = VP p) ->
                   flat_map den [g_prim c u var y] = [e_prim c u var y]
                   /\ forallb (fun k => attrs_present (item_of c k)) [g_prim c u var y] = true).
-        { intros y Hy. cbn [flat_map]. rewrite (den_prim var y Hy). split; reflexivity. }
+        { intros y Hy Hnl. cbn [flat_map forallb]. destruct (den_prim var y Hy Hnl) as [E1 E2]. rewrite E1, E2. split; reflexivity. }
         destruct (wf_class_evar m var Hwc Hvar) as [[Hwe Hine]|[Htx [Hwt Hnoe]]].
         - destruct (wf_elem_inv var Hwe) as [Hk [Hc Hty]].
           pose proof (Hfe _ var Hine (or_introl eq_refl)) as Hfv0.
@@ -375,7 +396,7 @@ Section Tree.
             2:{ rewrite El in Hfv0. unfold Fits.fits_elem in Hfv0. rewrite Hf0, Htf0 in Hfv0.
                 apply andb_true_iff in Hfv0 as [_ Hfl]. rewrite forallb_forall in Hfl. specialize (Hfl x Hil).
                 destruct (Hit x Hfl) as [_ [_ Hshx]]. destruct (Hitp x Hfl) as [p Ex]. subst x. rewrite Htf0.
-                apply (Hpr (VP p) Hshx). }
+                apply (Hpr (VP p) Hshx). right. eexists; reflexivity. }
             unfold pair_whole in Hw. cbn [fst snd] in Hw. rewrite <- Hw in Hfv0. rename Hfv0 into Hfv. clear Hin Hxn Hw.
             unfold Fits.fits_elem in Hfv.
             destruct (v_tokens_factory var) as [tf|] eqn:Etf.
@@ -388,7 +409,9 @@ Section Tree.
                  induction l as [|z l IHl]; [split; reflexivity|].
                  destruct (fits_tokens_inv c u ok pyspace var tf z t Htys (Hfl z (or_introl eq_refl))) as [tz [lz [-> [_ [Htk _]]]]].
                  cbn [map flat_map forallb]. fold (den (g_prim c u var (VList tz lz))).
-                 rewrite (den_prim var (VList tz lz)); [|eapply es_tokens; exact Htk].
+                 destruct (den_prim var (VList tz lz)) as [Ed1 Ed2];
+                   [eapply es_tokens; exact Htk|left; apply (wf_elem_nonil_tokens var tf Hwe Etf)|].
+                 rewrite Ed1, Ed2.
                  destruct (IHl (fun w Hw => Hfl w (or_intror Hw))) as [E3 E4]. rewrite E3, E4. split; reflexivity.
               -- destruct x as [| |tt l| | | |] eqn:Ex; try (cbn in Hfv; discriminate Hfv).
                  destruct l as [|y l']; [split; reflexivity|].
@@ -397,18 +420,20 @@ Section Tree.
                  { cbn [forallb] in Htk. apply andb_true_iff in Htk as [Hy _].
                    destruct (token_is_leaf c u ok pyspace _ _ _ Hy) as [p [-> _]]. exact I. }
                  assert (Hsh : enc_shape (v_format var) (VList tt (y :: l'))) by (eapply es_tokens; exact Htk).
-                 destruct y; try destruct Hy; apply (Hpr _ Hsh).
+                 destruct y; try destruct Hy; apply (Hpr _ Hsh); left; apply (wf_elem_nonil_tokens var tf Hwe Etf).
             * destruct (v_factory var) as [fa|] eqn:Efa.
               -- destruct x as [| |tt l| | | |]; try discriminate Hfv. apply andb_true_iff in Hfv as [_ Hfl].
                  rewrite forallb_forall in Hfl.
                  induction l as [|y l IHl]; [split; reflexivity|].
                  destruct (Hit y (Hfl y (or_introl eq_refl))) as [E1 [E2 Hsh]].
                  cbn [map flat_map forallb]. rewrite E1, E2.
-                 fold (den (g_prim c u var y)). rewrite (den_prim var y Hsh).
+                 fold (den (g_prim c u var y)).
+                 destruct (den_prim var y Hsh) as [Ed1 Ed2]; [right; apply (Hitp y (Hfl y (or_introl eq_refl)))|].
+                 rewrite Ed1, Ed2.
                  destruct (IHl (fun z Hz => Hfl z (or_intror Hz))) as [E3 E4]. rewrite E3, E4. split; reflexivity.
               -- destruct x eqn:Ex; try (split; reflexivity).
                  all: destruct (Hit _ Hfv) as [_ [_ Hshx]]; destruct (Hitp _ Hfv) as [p0 Ep]; try discriminate Ep.
-                 inversion Ep; subst. apply (Hpr (VP p0) Hshx).
+                 inversion Ep; subst. apply (Hpr (VP p0) Hshx). right. eexists; reflexivity.
         - destruct (wf_text_inv var Hwt) as [Hwtk [Hwt0 [t [Htys Hwtd]]]].
           unfold g_items, e_items. rewrite Hwtk.
           assert (Hxe : x = field_of fs var).
